@@ -18,9 +18,13 @@ GENERATED = ["Consts"]
 ASSUMPTIONS = [
     "lyd_hash is modelled as injective on (schema, key) (abstract hash keys): 32-bit collisions are outside the model",
     "in the sibling-list model the red-black tree of a system-ordered (leaf-)list is abstracted by its in-order sequence = the "
-    "instance block; stage 2 (Props/C04Rb) proves that for insertion (Rb.insert mirrors rb_insert_node/rb_insert_color, shapes "
-    "compared with the real tree); removal (rb_remove*) is not modelled — the white-box harness checks in-order = sibling order "
-    "and the red-black invariants on the real structure after every op",
+    "instance block; stage 2 (Props/C04Rb) proves that abstraction for insertion AND removal (Rb.insert / Rb.remove mirror "
+    "rb_insert_node/rb_insert_color and rb_remove/rb_remove_color case by case; Rb.find mirrors rb_find; the shapes — colours, "
+    "pre-order, value:serial — the position of the lyds_tree metadata and the sibling order are compared with the real "
+    "structure after EVERY op of insert/unlink scripts, op rbs); lyds_merge (bulk move of a whole list onto present "
+    "instances) is Rb.mergeTree, compared the same way (op rbm); the lyds_pool of lyd_dup_siblings_to_parent / "
+    "lyd_merge is not in the Lean model: the white-box harness checks in-order = sibling order and the red-black "
+    "invariants on the real structure after every op",
     "key types of the generated schemas: int32, uint8, string (type plugins' sort callbacks: numeric / strcmp)",
     "ops outside the model's fragment (lyd_move_nodes of a multi-node list, dup, merge, validate, implicit, opaque nodes "
     "through insert_before/after, second key leaf) are judged by the C-side battery only",
@@ -329,6 +333,171 @@ def rb_shapes(cx, schs):
                 cx.fail("sib", "instances of a system-ordered leaf-list not sorted after insertions", {"keys": q, "order": order, "attrib": None})
 
 
+def ht_min_items():
+    """LYD_HT_MIN_ITEMS as the translator wrote it into Generated/Consts.lean (the children hash table of the parent appears
+    with that many children: the rb scripts must cross it in both directions)."""
+    import re
+    txt = open(os.path.join(paths.LEAN, "LyModel", "Generated", "Consts.lean")).read()
+    m = re.search(r"def LYD_HT_MIN_ITEMS : Nat := (\d+)", txt)
+    return int(m.group(1)) if m else 4
+
+
+def rbs_enumerate(nkeys, maxlen):
+    """every script of inserts (keys 1..nkeys, any order, repeats allowed) and unlinks (every live position) up to maxlen ops
+    that is not a prefix-extension duplicate: generated as a tree walk over (op, live count)"""
+    out = []
+
+    def rec(script, live):
+        if script:
+            out.append(script)
+        if len(script) == maxlen:
+            return
+        for k in range(1, nkeys + 1):
+            rec(script + ["i%d" % k], live + 1)
+        for j in range(live):
+            rec(script + ["u%d" % j], live - 1)
+    rec([], 0)
+    return out
+
+
+def rb_scripts(cx, schs):
+    """Stage 2 with removal: scripts of insert / unlink(+free) / unlink+re-insert on one system-ordered leaf-list; after EVERY
+    op the real red-black tree (pre-order, colours, value:serial), the position of the lyds_tree metadata, the white-box
+    verdict and the sibling order are compared token for token with Rb.insert / Rb.remove / Rb.find of the model."""
+    sch = schs["S1"]
+    rng = cx.sub_rng("rbs")
+    hmin = ht_min_items()
+    scripts = []
+    # (a) exhaustive: every insert/remove script of <= L ops over 2 keys, and over 3 keys one op shorter
+    for q in rbs_enumerate(2, cx.n(7, 9)) + rbs_enumerate(3, cx.n(6, 7)):
+        scripts.append(("exh", q))
+    # (b) exhaustive removal orders: n distinct keys (n <= 7) inserted in some order, then removed in EVERY order
+    for n in range(2, 8):
+        perms = list(itertools.permutations(range(n)))
+        ins_orders = perms if n <= 4 else [tuple(rng.sample(range(n), n)) for _ in range(cx.n(3, 40))] + [tuple(range(n)), tuple(reversed(range(n)))]
+        for io in ins_orders:
+            base = ["i%d" % (k + 1) for k in io]
+            if n <= 5:
+                rem_orders = perms
+            else:
+                rem_orders = [tuple(rng.sample(range(n), n)) for _ in range(cx.n(40, 400))]
+            for ro in rem_orders:
+                # positions: the instance with the ro[j]-th smallest key among those still present
+                live = list(range(n))
+                q = list(base)
+                for v in ro:
+                    q.append("u%d" % live.index(v))
+                    live.remove(v)
+                scripts.append(("perm", q))
+    # (c) random long interleavings, also with equal keys and re-insertion of the unlinked node; sizes around LYD_HT_MIN_ITEMS
+    for _ in range(cx.n(700, 8000)):
+        length = rng.choice([12, 25, 60, 150])
+        dom = rng.choice([2, 4, 9, 40, 1000])
+        target = rng.choice([hmin - 1, hmin, hmin + 1, 2 * hmin, 12, 30])
+        live, q = 0, []
+        for _ in range(length):
+            r = rng.random()
+            if live == 0 or r < (0.75 if live < target else 0.3):
+                q.append("i%d" % rng.randrange(-dom, dom)); live += 1
+            elif r < 0.9:
+                q.append("u%d" % rng.randrange(live)); live -= 1
+            else:
+                q.append("m%d" % rng.randrange(live))
+        scripts.append(("random", q))
+    lines = ["%d sib rbs c %s %s %s" % (i, sch.desc_tok, sch.yang_tok, ",".join(q)) for i, (_, q) in enumerate(scripts)]
+    lines.append("%d sib rbleak" % len(scripts))
+    ri = cx.run_impl(WB, lines, component="sib")
+    rm = cx.run_model(lines)
+    crossed = 0
+    for i, (kind, q) in enumerate(scripts):
+        a, b = ri.get(str(i), ["err", "NoReply"]), rm.get(str(i), ["err", "NoReply"])
+        nrem = sum(1 for t in q if t[0] in "um")
+        cx.count(("rbs", tuple(q)), nrem > 0, "sib:rbs:%s" % kind)
+        cx.dist["sib:rbs:removals"] += nrem
+        if a != b:
+            # first differing op
+            ga, gb = " ".join(a).split(" | "), " ".join(b).split(" | ")
+            k = next((j for j in range(min(len(ga), len(gb))) if ga[j] != gb[j]), min(len(ga), len(gb)))
+            cx.disagree("sib-rbs", "rbs script %s (first difference at op %d)" % (",".join(q[:k]), k),
+                        (ga[k] if k < len(ga) else "none")[:300], (gb[k] if k < len(gb) else "none")[:300])
+            continue
+        groups = " ".join(a).split(" | ")[1:]
+        sizes = []
+        for j, g in enumerate(groups):
+            toks = g.split()
+            if toks and toks[0].startswith("R:"):
+                continue
+            # laws on the implementation itself: verdict of the white-box walk, sorted sibling order
+            v = [t for t in toks if t.startswith("V")]
+            order = [int(t.split(":")[0]) for t in toks[toks.index("=") + 1:]] if "=" in toks else []
+            sizes.append(len(order))
+            if (v and v[0] != "V0") or order != sorted(order):
+                cx.fail("sib", "red-black tree / sibling order broken after op %d of an insert/unlink script" % j,
+                        {"script": q[:j + 1], "state": g[:300], "attrib": None})
+                break
+        if sizes and min(sizes) < hmin <= max(sizes):
+            crossed += 1
+    cx.dist["sib:rbs:scripts-crossing-LYD_HT_MIN_ITEMS"] += crossed
+    a, b = ri.get(str(len(scripts)), ["err", "NoReply"]), rm.get(str(len(scripts)), ["err", "NoReply"])
+    cx.count(("rbs", "leak"), True, "sib:rbs:leakcheck")
+    if a != b:
+        cx.fail("sib", "red-black nodes / lyds_tree metadata leaked by insert/unlink scripts", {"reply": a, "attrib": None})
+
+
+def rb_merges(cx, schs):
+    """lyds_merge: two system-ordered leaf-lists built by insert/unlink scripts, then ALL instances of the second (or a
+    lyd_dup_siblings copy of them: no sorting tree) moved onto the first in one call; resulting red-black shape, metadata
+    position, white-box verdict and sibling order vs Rb.mergeTree.  Exhaustive over all pairs of insert sequences of
+    length <= 3 over 3 keys (both directions of every tree / no-tree combination), random larger ones."""
+    sch = schs["S1"]
+    rng = cx.sub_rng("rbm")
+    seqs = [list(t) for n in range(1, 4) for t in itertools.product([1, 2, 3], repeat=n)]
+    cases = []
+    for d in seqs:
+        for s_ in seqs:
+            cases.append(("exh", ["i%d" % k for k in d], ["i%d" % k for k in s_], False))
+    for d in seqs[:12]:
+        for s_ in seqs:
+            if len(s_) > 1:
+                cases.append(("exh-dup", ["i%d" % k for k in d], ["i%d" % k for k in s_], True))
+
+    def rnd_script(n, dom, removals):
+        live, q = 0, []
+        while live < n or len(q) < n:
+            if live and removals and rng.random() < 0.25:
+                q.append("u%d" % rng.randrange(live)); live -= 1
+            else:
+                q.append("i%d" % rng.randrange(-dom, dom)); live += 1
+            if len(q) > 4 * n + 4:
+                break
+        return q
+    for _ in range(cx.n(500, 6000)):
+        dom = rng.choice([2, 5, 30, 1000])
+        cases.append(("random", rnd_script(rng.choice([1, 2, 3, 5, 9, 20]), dom, True), rnd_script(rng.choice([1, 2, 3, 5, 9, 20]), dom, True),
+                      rng.random() < 0.25))
+    lines = ["%d sib rbm c %s %s %s %s%s" % (i, sch.desc_tok, sch.yang_tok, ",".join(d), "D" if dup else "", ",".join(s_))
+             for i, (_, d, s_, dup) in enumerate(cases)]
+    lines.append("%d sib rbleak" % len(cases))
+    ri = cx.run_impl(WB, lines, component="sib")
+    rm = cx.run_model(lines)
+    for i, (kind, d, s_, dup) in enumerate(cases):
+        a, b = ri.get(str(i), ["err", "NoReply"]), rm.get(str(i), ["err", "NoReply"])
+        cx.count(("rbm", tuple(d), tuple(s_), dup), True, "sib:rbm:%s" % kind)
+        if a != b:
+            cx.disagree("sib-rbm", "rbm dst=%s src=%s%s" % (",".join(d), "D" if dup else "", ",".join(s_)), " ".join(a)[:300], " ".join(b)[:300])
+            continue
+        toks = a[1:]
+        v = [t for t in toks if t.startswith("V")]
+        order = [int(t.split(":")[0]) for t in toks[toks.index("=") + 1:]] if "=" in toks else []
+        if (v and v[0] != "V0") or order != sorted(order):
+            cx.fail("sib", "red-black tree / sibling order broken after moving a whole (leaf-)list onto another (lyds_merge)",
+                    {"dst": d, "src": s_, "dup": dup, "state": " ".join(a)[:300], "attrib": None})
+    a, b = ri.get(str(len(cases)), ["err", "NoReply"]), rm.get(str(len(cases)), ["err", "NoReply"])
+    cx.count(("rbm", "leak"), True, "sib:rbm:leakcheck")
+    if a != b:
+        cx.fail("sib", "red-black nodes / lyds_tree metadata leaked by bulk moves (lyds_merge)", {"reply": a, "attrib": None})
+
+
 def corpus_scripts():
     d = os.path.join(paths.CORPUS, "sib")
     out = []
@@ -388,6 +557,8 @@ def run(cx):
     differential_scripts(cx, schs, rnd[:cx.n(150, 1500)] + ex[:cx.n(250, 1500)], variant, harness=API, kind="api")
 
     rb_shapes(cx, schs)
+    rb_scripts(cx, schs)
+    rb_merges(cx, schs)
 
     # 3. laws on the implementation
     perm_law(cx, schs)
